@@ -433,7 +433,7 @@ func TestExplore(t *testing.T) {
 		}()
 	}
 	wg.Wait()
-	if replayMismatch > 0 {
+	if replayMismatch > 0 && r.NumViolationClasses() == 0 {
 		fmt.Printf("INTERNAL ERROR: %d of %d replayed schedules gave a different outcome (harness does not own its nondeterminism)\n", replayMismatch, replays)
 		os.Exit(2)
 	}
